@@ -2,6 +2,7 @@ package main
 
 import (
 	"encoding/json"
+	"errors"
 	"fmt"
 	"os"
 	"sort"
@@ -83,6 +84,48 @@ func (x dictIS) kvs() [][2]string {
 }
 func (x dictIS) toDictOfKVs() dictObj { return dictIS{dict.ToDict(dict.KVs(x.d))} }
 
+// dictTI: keys are string*string tuples (a legal Folang key type); two different keys may print identically
+// ("a b","c") / ("a","b c"), so anything that identifies entries by their printed form is exposed.
+type dictTI struct {
+	d dict.Dict[frt.Tuple2[string, string], int]
+}
+
+func tkey(s string) frt.Tuple2[string, string] {
+	a, b, _ := gostrings.Cut(s, "|")
+	return frt.NewTuple2(a, b)
+}
+func tkeyText(k frt.Tuple2[string, string]) string { return k.E0 + "|" + k.E1 }
+
+func (x dictTI) add(k, v string)        { dict.Add(x.d, tkey(k), atoi(v)) }
+func (x dictTI) contains(k string) bool { return dict.ContainsKey(x.d, tkey(k)) }
+func (x dictTI) tryFind(k string) (string, bool) {
+	v, ok := frt.Destr2(dict.TryFind(x.d, tkey(k)))
+	return strconv.Itoa(v), ok
+}
+func (x dictTI) item(k string) string { return strconv.Itoa(dict.Item(x.d, tkey(k))) }
+func (x dictTI) keys() []string {
+	var out []string
+	for _, k := range dict.Keys(x.d) {
+		out = append(out, tkeyText(k))
+	}
+	return out
+}
+func (x dictTI) values() []string {
+	var out []string
+	for _, v := range dict.Values(x.d) {
+		out = append(out, strconv.Itoa(v))
+	}
+	return out
+}
+func (x dictTI) kvs() [][2]string {
+	var out [][2]string
+	for _, kv := range dict.KVs(x.d) {
+		out = append(out, [2]string{tkeyText(kv.E0), strconv.Itoa(kv.E1)})
+	}
+	return out
+}
+func (x dictTI) toDictOfKVs() dictObj { return dictTI{dict.ToDict(dict.KVs(x.d))} }
+
 type dictVal struct {
 	kind  string // sI or iS
 	obj   dictObj
@@ -102,7 +145,8 @@ type engC14 struct {
 	enumLog []string // sched configuration: permutations applied (for the trace hash)
 }
 
-var universe = map[string][]string{"sI": {"k0", "k1", "k2", "k3", "k4", ""}, "iS": {"0", "1", "2", "3", "4", "-1"}}
+var universe = map[string][]string{"sI": {"k0", "k1", "k2", "k3", "k4", ""}, "iS": {"0", "1", "2", "3", "4", "-1"},
+	"tI": {"a b|c", "a|b c", "a|", "|a", "x|y", "z|z"}}
 
 func sortedCopy(xs []string) []string {
 	out := append([]string{}, xs...)
@@ -235,7 +279,26 @@ var fmtValues = map[string]fmtVal{
 	"nil":               {v: nil},
 	"ptrnil":            {v: (*int)(nil)},
 	"rune":              {v: 'x', decimal: "120"},
+	"stringer":          {v: &posT{3}},
+	"error":             {v: &parseErr{"boom"}},
+	"nilStringer":       {v: (*posT)(nil)},
+	"nilError":          {v: (*parseErr)(nil)},
+	"errorsNew":         {v: errors.New("plain error")},
+	"stringerValue":     {v: tagT{"t"}},
 }
+
+// values with methods: display form is Go's %v, which calls String / Error and prints <nil> for a nil receiver
+type posT struct{ line int }
+
+func (p *posT) String() string { return fmt.Sprint("line ", p.line) }
+
+type parseErr struct{ msg string }
+
+func (e *parseErr) Error() string { return "parse error: " + e.msg }
+
+type tagT struct{ s string }
+
+func (t tagT) String() string { return "<" + t.s + ">" }
 
 func (e *engC14) apply(op Op) (executed bool, observable, msg string) {
 	arg := func(i int) string {
@@ -255,6 +318,8 @@ func (e *engC14) apply(op Op) (executed bool, observable, msg string) {
 			o = dictSI{dict.New[string, int]()}
 		} else if op.Fn == "iS" {
 			o = dictIS{dict.New[int, string]()}
+		} else if op.Fn == "tI" {
+			o = dictTI{dict.New[frt.Tuple2[string, string], int]()}
 		} else {
 			return false, "", ""
 		}
@@ -278,7 +343,7 @@ func (e *engC14) apply(op Op) (executed bool, observable, msg string) {
 		}
 		d.obj.add(arg(1), arg(2))
 		d.model[arg(1)] = arg(2)
-		if d.kind == "sI" {
+		if d.kind == "sI" || d.kind == "tI" {
 			d.model[arg(1)] = strconv.Itoa(atoi(arg(2)))
 		} else {
 			// keys are ints in text form
@@ -608,7 +673,7 @@ func genHistoryC14(r *common.Rng, seed int64, run int, config string) *History {
 		if r.Intn(10) < relevantBias {
 			switch k := r.Intn(14); {
 			case k < 2 || len(dicts) == 0 && k < 9:
-				kind := r.Pick("sI", "iS")
+				kind := r.Pick("sI", "iS", "tI")
 				h.Ops = append(h.Ops, Op{F: "dict.New", Fn: kind, Out: next})
 				dicts = append(dicts, gv{next, kind})
 				next++
